@@ -464,7 +464,7 @@ static void c11_rlimit_fault(long k)
   vk_cfg.vlimit = 2048;
   vk_cfg.faults_on = 1;
   vk_cfg.fault_bound = 1;
-  vk_cfg.fault_calls = 1ull << C_GETRLIMIT;
+  vk_cfg.fault_calls = (1ull << C_GETRLIMIT) | (1ull << C_CLOSE_RANGE);
   snprintf(key, sizeof key, "h_c11|limit-unreadable|redirect=%ld", k);
   hx_desc("%s", key);
   snprintf(key, sizeof key, "h_c11|limit-unreadable");
